@@ -629,7 +629,7 @@ class C15:
             "dynamic fault point of the crash-free run fails once) when there are <= MAX_ENUM of them, and sampled plans with 2-3 crash "
             "points; each plan runs in checked and release builds and is compared snippet-by-snippet with the session model; "
             "sessions containing a reset are additionally replayed from the last reset on a fresh interpreter (metamorphic). "
-            "distinct_nontrivial = distinct (session, plan) hashes with >= 1 failed snippet followed by >= 1 later snippet")
+            "distinct_nontrivial = distinct (session, plan) hashes with >= 1 failed snippet followed by >= 1 later snippet 1/64 of the plans also run on the optimised build collecting at every allocation under valgrind memcheck.")
     COMPONENTS = {"real": ["yarel compiler", "VM interpret/execute/runtime_error/reset_stack/reset on ONE Vm per session",
                            "module system (imports persist across snippets)", "fibers persisting across snippets"],
                   "stub": ["fault-point native (crash points)", "module loader serving generated sources"]}
